@@ -33,6 +33,8 @@ ASSUME = SIM_ASSUME + [
     "ACK frames are sent directly, not forwarded, and are therefore not part of the statistics (they reach the logger monitor as copies and are excluded by source 0 / type 2)",
     "TIMING_MESSAGE and MESSAGE_TRAFFIC themselves are excluded, as the statement says",
     "counts above 65535 per type per interval are outside the stated domain (uint16 fields)",
+    "a message the manager received but refused to forward because its destination module/host id is out of range counts as 'handled for "
+    "forwarding' (the statistics are taken before the destination check; the statement does not single such messages out)",
     "the first report after the monitor subscribed is discarded (warm-up: frames forwarded before it could see them)",
     "entries of MESSAGE_TRAFFIC whose count is 0 are treated as unused slots",
     "a forwarded message whose type is -1 cannot be told from an unused MESSAGE_TRAFFIC entry (format limitation): not expected in the report",
